@@ -1,6 +1,7 @@
 package main
 
 import (
+	"bytes"
 	"fmt"
 	"strings"
 
@@ -37,6 +38,15 @@ func readAll(st *mavl.Store, root []byte, content map[string]string) string {
 }
 
 func concurrentPart(r *vx.Run, c mvx.Cfg) {
+	for _, q := range concScheds(r, c, false) {
+		q.ExploreUnsharded()
+		r.Count("concurrent_scenarios", 1)
+	}
+}
+
+// concScheds builds the concurrent scenarios of one configuration (all of them when all is set: replay).
+func concScheds(r *vx.Run, c mvx.Cfg, all bool) []*vx.Sched {
+	var out []*vx.Sched
 	bound := r.Pick(2, 3)
 	type scen struct {
 		name     string
@@ -44,8 +54,8 @@ func concurrentPart(r *vx.Run, c mvx.Cfg) {
 		bCommits bool // the second fork is committed too instead of rolled back
 	}
 	scens := []scen{{"fork-commit-vs-rollback", 1, 3, false}, {"fork-both-commit", 1, 4, true}, {"same-content-fork", 1, 1, false}}
-	if !r.Quick() {
-		scens = append(scens, scen{"fork-commit-vs-rollback-2", 4, 2, false}, scen{"restore-parent-content", 0, 2, true})
+	if !r.Quick() || all {
+		scens = append(scens, scen{"fork-commit-vs-rollback-2", 4, 2, false}, scen{"restore-parent-content", 0, 2, true}, scen{"same-new-root-both-commit", 1, 1, true})
 	}
 	for _, sc := range scens {
 		sc := sc
@@ -56,6 +66,8 @@ func concurrentPart(r *vx.Run, c mvx.Cfg) {
 			c0, c1 map[string]string
 			ra, rb []byte
 			aOK    bool
+			errA   string // answer of A's Commit when it failed
+			errB   string // answer of B's Commit / Rollback when it failed
 			bad    []string
 		}
 		var cur *world
@@ -83,12 +95,10 @@ func concurrentPart(r *vx.Run, c mvx.Cfg) {
 						return
 					}
 					w.ra = root
-					// two identical updates of one parent are one pending tree (same root): when the other
-					// thread rolls it back first this commit legitimately finds nothing
 					if _, err := w.st.Commit(&types.ReqHash{Hash: root}); err == nil {
 						w.aOK = true
-					} else if sc.wa != sc.wb {
-						w.bad = append(w.bad, "Commit A: "+err.Error())
+					} else {
+						w.errA = "Commit A: " + err.Error()
 					}
 				})
 				vrt.GoNamed("B", func() {
@@ -99,11 +109,11 @@ func concurrentPart(r *vx.Run, c mvx.Cfg) {
 					}
 					w.rb = root
 					if sc.bCommits {
-						if _, err := w.st.Commit(&types.ReqHash{Hash: root}); err != nil && !(sc.wa == sc.wb) {
-							w.bad = append(w.bad, "Commit B: "+err.Error())
+						if _, err := w.st.Commit(&types.ReqHash{Hash: root}); err != nil {
+							w.errB = "Commit B: " + err.Error()
 						}
-					} else if _, err := w.st.Rollback(&types.ReqHash{Hash: root}); err != nil && !(sc.wa == sc.wb) {
-						w.bad = append(w.bad, "Rollback B: "+err.Error())
+					} else if _, err := w.st.Rollback(&types.ReqHash{Hash: root}); err != nil {
+						w.errB = "Rollback B: " + err.Error()
 					}
 				})
 				vrt.GoNamed("reader", func() {
@@ -125,6 +135,25 @@ func concurrentPart(r *vx.Run, c mvx.Cfg) {
 				}
 				if len(w.bad) > 0 {
 					return w.bad[0]
+				}
+				// two pending updates with one resulting root are ONE pending tree (the store keys them by
+				// root): whichever request comes second legitimately finds nothing. Anything else that
+				// fails, and both failing, is reported.
+				sameRoot := w.ra != nil && bytes.Equal(w.ra, w.rb)
+				if !sameRoot || !strings.HasSuffix(w.errA+w.errB, types.ErrHashNotFound.Error()) || (w.errA != "" && w.errB != "") {
+					if w.errA != "" {
+						return w.errA
+					}
+					if w.errB != "" {
+						return w.errB
+					}
+				}
+				if sameRoot {
+					r.Count("same_root_pending_pairs", 1)
+					// the committed content must be readable whoever won
+					if sc.bCommits && w.errB == "" {
+						w.aOK = true
+					}
 				}
 				var f string
 				if p := vx.Catch(func() {
@@ -162,7 +191,7 @@ func concurrentPart(r *vx.Run, c mvx.Cfg) {
 			},
 			FP: func(what string) string { return "conc:" + c.Name + ":" + vx.Norm(what, 50) },
 		}
-		q.ExploreUnsharded()
-		r.Count("concurrent_scenarios", 1)
+		out = append(out, q)
 	}
+	return out
 }
